@@ -79,6 +79,9 @@ def main(tier_: str) -> int:
             vecs.append(('pad', tmpl, 'odvod', ''))
         for q in ('', 'timeline=1'):
             vecs.append(('pad', 'hand_made.mpd', 'vod', q))
+        # media whose last mdat is written with size 0 ("to the end of the file")
+        for tmpl, mode in (('hand_made.mpd', 'odvod'), ('hand_made.mpd', 'vod'), ('manifest_a.mpd', 'vod')):
+            vecs.append(('eof', tmpl, mode, ''))
         # media stored as styp + moof + mdat per fragment, without segment indexes (spec/Indexer.tla, check X03)
         for tmpl in OD_TEMPLATES:
             vecs.append(('nsx', tmpl, 'odvod', ''))
@@ -106,6 +109,18 @@ def main(tier_: str) -> int:
                 pf.write_bytes(pad_with_free((REPO / 'tests' / 'fixtures' / 'bbb' / f'{stem}.mp4').read_bytes()))
                 padded.append((pf, f'pad_{stem[4:]}'))
             da.add_fixture('bbb', directory='pad', title='stored with free padding', only={'bbb_v7', 'bbb_a1'}, extra=padded)
+            from harness.synth import open_ended_last_box
+            eof = []
+            for stem in ('bbb_v7', 'bbb_a1'):
+                ef = d / f'eof_{stem[4:]}.mp4'
+                ef.write_bytes(open_ended_last_box((REPO / 'tests' / 'fixtures' / 'bbb' / f'{stem}.mp4').read_bytes()))
+                eof.append((ef, f'eof_{stem[4:]}'))
+            try:
+                da.add_fixture('bbb', directory='eof', title='last mdat extends to the end of the file', only=set(), extra=eof)
+            except Exception as err:
+                vecs[:] = [v for v in vecs if v[0] != 'eof']
+                lines.append({'tid': 999, 'ev': 'index_failed', 'file': 'eof_v7 / eof_a1', 'shape': 'last top-level mdat written with size 0',
+                              'error': f'{type(err).__name__}: {str(err)[:160]}', 'url': 'index:eof', 'rep': 'eof'})
             drv = StaticDriver(da)
             for i, (stream, tmpl, mode, q) in enumerate(vecs):
                 lines.extend(drv.static_manifest(1000 + i, stream, tmpl, mode, q, now))
